@@ -314,7 +314,7 @@ fn chunking_body(n: usize) {
 //  iteration, and the drop glue of that error is what CBMC cannot get through -- no verdict in 15-25 min even for 2 bytes)
 // @gv props=C03,C11 tier=thorough required=no fns=Decoder::decode_bytes,Decoder::process_read_packet_type,Decoder::process_read_total_remaining_length,Decoder::process_read_packet_body
 // @gv bounds="every 2-byte stream (type byte, remaining-length byte <= 3 or a continuation byte) fed whole vs split at every position; symbolic maximum packet size; body dispatcher stubbed by a deterministic recorder"
-// @gv timeout=1200 mem=12
+// @gv timeout=1200 mem=6
 #[kani::proof]
 #[kani::unwind(10)]
 #[kani::stub(std::fmt::format, stub_format)]
